@@ -1634,8 +1634,11 @@ def run_histories(ctx, mats, solids):
     for _ in range(ctx.pick(150, 1500)):
         plan.append((None, None, None))
     req, chk = [], []
-    for shape, mode, swaps in plan:
-        seed = ctx.rng.getrandbits(40)
+    fixed = corpus_seeds("hist")
+    ctx.count("corpus cases (hist)", len(fixed))
+    plan = [(d.get("shape"), d.get("mode"), d.get("swaps"), d["seed"]) for d in fixed] + [p + (None,) for p in plan]
+    for shape, mode, swaps, fixed_seed in plan:
+        seed = fixed_seed if fixed_seed is not None else ctx.rng.getrandbits(40)
         case = {"hist": True, "seed": seed, "shape": shape, "mode": mode, "swaps": swaps}
         spec = hist_spec(seed, mats, solids, shape, mode, swaps)
         fails = []
@@ -1906,16 +1909,298 @@ def link_cache_case(seed, mats, solids, fail, count=lambda *_: None):
     # which clearLinkedCache the model transcribes: the transitive sweep of the code since fix b30c1b1 (the defect is
     # recorded as `fixed:` in findings.d/C03.txt); the direct-dependents sweep only if the key is listed as a finding again
     coded = any(f.get("property") == "C03" and f.get("key") == STALE_KEY for f in common.load_findings()["finding"])
-    req = (f"bhist {'F' if coded else 'T'} {rat(h)} {rat(amax0)} [{','.join(mtoks)}] {'|'.join(ctoks)} "
+    req = (f"bhist {'F' if coded else 'T'}F {rat(h)} {rat(amax0)} [{','.join(mtoks)}] {'|'.join(ctoks)} "
            f"[{','.join(tok for tok, _ in log)}]")
     return req, log
+
+
+SETLINK_KEY = "volume-stale-after-setlink"
+
+
+def setlink_case(seed, mats, solids, fail, count=lambda *_: None):
+    """`Component.setLink(key, otherComp, otherCompKey)` AFTER construction.  A pin block whose fluid annuli are given
+    as consistent NUMBERS (every component at Tinput == Thot, so each number equals the neighbouring solid's current
+    dimension) is turned into a linked block link by link - at moments of value coincidence and, after the targets
+    have moved, of non-coincidence; existing links are moved between components with equal current values (gas bond:
+    bond.od <-> liner.id, bond.id <-> fuel.od), also onto dimensions that are links themselves; targets are resized to
+    the holder's value and then linked.  In between the solids are heated and hot-set.  The DECLARED links are kept
+    here; after every call every declared link must equal its target's current dimension (hot and cold), and every
+    component's getVolume()/height must equal getArea()."""
+    import random
+
+    from armi.materials import material as _material
+    from armi.materials.custom import Custom as _Custom
+    from armi.reactor import blocks, components
+    from armi.reactor.components.component import _DimensionLink
+
+    rng = random.Random(seed)
+    a, b, c3 = (rng.choice(solids) for _ in range(3))
+
+    def mat(n):
+        return mats[n]["cls"]()
+
+    def temps(n, k):
+        return gen_temps(rng, mats[n]["lo"], mats[n]["hi"], k)
+
+    ta, tb, tc = temps(a, 6), temps(b, 6), temps(c3, 6)
+    h = common.dyadic(rng, 5, 40, 1)
+    fod = common.dyadic(rng, 0.5, 0.75, 4)
+    with common.quiet():
+        blk = blocks.HexBlock("b", height=h)
+        fuel = components.Circle("fuel", mat(a), ta[0], ta[0], od=fod, id=0.0, mult=7.0)
+        liner = components.Circle("liner", mat(b), tb[0], tb[0], od=1.125, id=1.0, mult=7.0)
+        clad = components.Circle("clad", mat(c3), tc[0], tc[0], od=1.5, id=1.25, mult=7.0)
+        bond = components.Circle("bond", "Sodium", 450.0, 450.0, od=1.0, id=fod, mult=5.0)
+        gap = components.Circle("gap", "Sodium", 450.0, 450.0, od=1.25, id=1.125, mult=7.0)
+        gas = components.Circle("gasbond", "Air", 450.0, 450.0, od=1.0, id=fod, mult=2.0)
+        duct = components.Hexagon("duct", "HT9", 25.0, 25.0, op=16.0, ip=15.0, mult=1.0)
+        cool = components.DerivedShape("coolant", "Sodium", 450.0, 450.0)
+        comps = [fuel, bond, liner, gap, clad, gas, duct]
+        for c in comps + [cool]:
+            blk.add(c)
+        amax0 = float(blk.getMaxArea())
+    index = {id(c): i for i, c in enumerate(comps)}
+    mat_names = []
+
+    def mat_index(c):
+        n = type(c.material).__name__
+        if n not in mat_names:
+            mat_names.append(n)
+        return mat_names.index(n)
+
+    all_temps = set()
+    ctoks = []
+    for c in comps:
+        nd = c.getNumberDensities()
+        nucs = sorted(nd)
+        ds = [f"{k}={rat(float(c.p[k]))}" for k in c.DIMENSION_NAMES if c.p[k] is not None]
+        all_temps |= {float(c.inputTemperatureInC), float(c.temperatureInC)}
+        ctoks.append(";".join([type(c).__name__, str(mat_index(c)), rat(float(c.inputTemperatureInC)),
+                               rat(float(c.temperatureInC)), ratlist([nd[n] for n in nucs]), ratlist(_mass_weights(nucs)),
+                               ",".join(ds)]))
+    log = []
+    declared = {}           # (holder name, key) -> (target component, target key)
+    tainted = set()         # components whose cached volume a non-coinciding setLink may have left behind
+    byname = {c.name: c for c in comps}
+
+    def call(tok, fn, compare=True):
+        try:
+            v = float(fn())
+            out = [v]
+        except (RuntimeError, ValueError):
+            v, out = None, "reject"
+        log.append((tok, out if compare else None))
+        return v
+
+    def A(c):
+        return call("qDA" if c is cool else f"qA~{index[id(c)]}", c.getArea)
+
+    def V(c):
+        return call("qDV" if c is cool else f"qV~{index[id(c)]}", c.getVolume)
+
+    def warm():
+        with common.quiet():
+            for c in blk:
+                V(c)
+            blk.getVolumeFractions()
+        for c in comps:
+            log.append((f"qV~{index[id(c)]}", None))
+        log.append(("qDV", None))
+
+    def dependents(c0):
+        out, frontier = [], [c0]
+        while frontier:
+            t = frontier.pop()
+            for c in comps:
+                if c not in out and c is not c0 and any(
+                        isinstance(c.p[k], _DimensionLink) and c.p[k][0] is t for k in c.DIMENSION_NAMES if c.p[k] is not None):
+                    out.append(c)
+                    frontier.append(c)
+        return out
+
+    def check(tag):
+        with common.quiet():
+            # the property's link clause, against the DECLARED targets
+            for (hn, key), (tgt, tkey) in declared.items():
+                holder = byname[hn]
+                for cold in (False, True):
+                    mine = call(f"qD{'c' if cold else ''}~{index[id(holder)]}~{key}", lambda: holder.getDimension(key, cold=cold))
+                    theirs = call(f"qD{'c' if cold else ''}~{index[id(tgt)]}~{tkey}", lambda: tgt.getDimension(tkey, cold=cold))
+                    if mine != theirs:
+                        fail("linked-dimension-follows", "a dimension linked through setLink equals the CURRENT dimension of the "
+                             "component it was linked to", mine, theirs,
+                             {"after": tag, "comp": hn, "dim": key, "target": f"{tgt.name}.{tkey}", "cold": cold})
+            stale_known = False
+            for c in blk:
+                area, vol = A(c), V(c)
+                if area is None or vol is None:
+                    continue
+                bad = relerr(vol / h, area) > TOL * max(1.0, abs(area))
+                if bad and (c.name in tainted or (c is cool and tainted)):
+                    stale_known = True
+                    fail(SETLINK_KEY, "getVolume()/height == getArea() after setLink changed what a dimension resolves to "
+                         "(setLink does not invalidate the cached volumes)", vol / h, area, {"after": tag, "comp": c.name})
+                elif bad:
+                    fail("volume-follows-area", "getVolume()/height == getArea(): the volume read path sees the current "
+                         "dimensions of the components it is linked to", vol / h, area, {"after": tag, "comp": c.name})
+                elif c.name in tainted:
+                    tainted.discard(c.name)
+            amax = float(blk.getMaxArea())
+            tot = sum(A(c) or 0.0 for c in blk)
+        if relerr(tot / amax, 1.0) > TOL:
+            fail(SETLINK_KEY if (stale_known or tainted) else "derived-shape-closes-area",
+                 "component areas of a block with a derived shape sum to the block's", tot, amax, {"after": tag})
+
+    def do_link(holder, key, tgt, tkey, how):
+        with common.quiet():
+            old = float(holder.getDimension(key))
+            new = float(tgt.getDimension(tkey))
+            holder.setLink(key, tgt, tkey)
+        log.append((f"L~{index[id(holder)]}~{key}~{index[id(tgt)]}~{tkey}", None))
+        declared[(holder.name, key)] = (tgt, tkey)
+        if old != new:
+            tainted.update([holder.name] + [d.name for d in dependents(holder)])
+        count(f"setLink {how}: " + ("values coincide" if old == new else "values differ"))
+
+    natural = [(bond, "id", fuel, "od"), (bond, "od", liner, "id"), (gap, "id", liner, "od"), (gap, "od", clad, "id"),
+               (gas, "id", bond, "id"), (gas, "od", bond, "od")]
+    moves = {("gasbond", "id"): [(bond, "id"), (fuel, "od")], ("gasbond", "od"): [(bond, "od"), (liner, "id")]}
+    warm()
+    check("built")
+    heat_idx = {"fuel": 1, "liner": 1, "clad": 1}
+    script = ["link"] + [rng.choice(["link", "link", "heat", "hotset", "move", "resize-link"]) for _ in range(rng.randint(5, 9))]
+    for i, what in enumerate(script):
+        if rng.random() < 0.6:
+            warm()
+        if what == "link":
+            free = [n for n in natural if (n[0].name, n[1]) not in declared]
+            if not free:
+                what = "move"
+            else:
+                holder, key, tgt, tkey = rng.choice(free)
+                do_link(holder, key, tgt, tkey, "number -> link")
+        if what == "move":
+            cands = [k for k in moves if k in declared]
+            if cands:
+                hn, key = rng.choice(cands)
+                cur = declared[(hn, key)]
+                options = [o for o in moves[(hn, key)] if not (o[0] is cur[0] and o[1] == cur[1])]
+                tgt, tkey = rng.choice(options)
+                do_link(byname[hn], key, tgt, tkey, "link moved to another component")
+        elif what == "resize-link":
+            free = [n for n in natural[:4] if (n[0].name, n[1]) not in declared]
+            if free:
+                holder, key, tgt, tkey = rng.choice(free)
+                with common.quiet():
+                    v = float(holder.getDimension(key))
+                    tgt.setDimension(tkey, v, cold=False)
+                log.append((f"H~{index[id(tgt)]}~{tkey}~{rat(v)}", None))
+                do_link(holder, key, tgt, tkey, "target resized to the holder's value, then linked")
+        elif what == "heat":
+            name = rng.choice(["fuel", "liner", "clad"])
+            c, tt = {"fuel": (fuel, ta), "liner": (liner, tb), "clad": (clad, tc)}[name]
+            t = tt[heat_idx[name]]
+            heat_idx[name] = min(heat_idx[name] + 1, 5)
+            with common.quiet():
+                c.setTemperature(t)
+            all_temps.add(float(t))
+            log.append((f"T~{index[id(c)]}~{rat(t)}", None))
+        elif what == "hotset":
+            c, key = rng.choice([(fuel, "od"), (liner, "id"), (liner, "od"), (clad, "id")])
+            with common.quiet():
+                v = float(c.getDimension(key)) * rng.choice([1.0078125, 0.9921875])
+                c.setDimension(key, v, cold=False)
+            log.append((f"H~{index[id(c)]}~{key}~{rat(v)}", None))
+        check(f"{i}:{what}")
+    # every history ends with all three solids moved once more: a link that was silently not established shows here
+    for name, (c, tt) in {"fuel": (fuel, ta), "liner": (liner, tb), "clad": (clad, tc)}.items():
+        t = tt[heat_idx[name]]
+        with common.quiet():
+            c.setTemperature(t)
+        all_temps.add(float(t))
+        log.append((f"T~{index[id(c)]}~{rat(t)}", None))
+    check("end: all solids heated")
+    temps_sorted = sorted(all_temps)
+    mtoks = []
+    for n in mat_names:
+        m = mats[n]["cls"]()
+        liquid = isinstance(m, _material.Fluid)
+        k = "L" if liquid else ("C" if isinstance(m, _Custom) else "S")
+        rows = []
+        for t in temps_sorted:
+            with common.quiet():
+                try:
+                    p_ = float(m.linearExpansionPercent(Tc=t))
+                except Exception:
+                    p_ = 0.0
+                try:
+                    rho = float(m.pseudoDensity(Tc=t)) if liquid else 0.0
+                except Exception:
+                    rho = 0.0
+            rows.append(f"{rat(t)}~{rat(p_)}~{rat(rho)}")
+        mtoks.append(";".join([k] + rows))
+    known = common.load_findings()["finding"]
+    coded = any(f.get("property") == "C03" and f.get("key") == STALE_KEY for f in known)
+    bare = any(f.get("property") == "C03" and f.get("key") == SETLINK_KEY for f in known)
+    req = (f"bhist {'F' if coded else 'T'}{'F' if bare else 'T'} {rat(h)} {rat(amax0)} [{','.join(mtoks)}] {'|'.join(ctoks)} "
+           f"[{','.join(tok for tok, _ in log)}]")
+    return req, log
+
+
+def run_setlinks(ctx, mats, solids):
+    n = ctx.pick(40, 300)
+    req, chk = [], []
+    fixed_seeds = [d["seed"] for d in corpus_seeds("setlink")]
+    ctx.count("corpus cases (setlink)", len(fixed_seeds))
+    for rep in range(n + len(fixed_seeds)):
+        seed = fixed_seeds[rep] if rep < len(fixed_seeds) else ctx.rng.getrandbits(40)
+        case = {"setlink": True, "seed": seed}
+        fails = []
+        try:
+            line, log = setlink_case(seed, mats, solids, lambda *a: fails.append(a), ctx.count)
+        except (ArithmeticError, ValueError) as e:
+            ctx.count(f"setLink block refused ({type(e).__name__})")
+            continue
+        req.append(line)
+        chk.append((case, log))
+        seen = set()
+        for key, clause, obs, exp, extra in fails:
+            if key == SETLINK_KEY and key in seen:
+                continue
+            seen.add(key)
+            ctx.fail(key, clause, dict(case, **extra), observed=obs, expected=exp)
+        ctx.case(("setlink", seed), nontrivial=True)
+    model = lean_run("Thermal", req)
+    for line, (case, log) in zip(model, chk):
+        hist_compare(ctx, case, line, log, what="Thermal.brun (setLink histories) vs the real call history")
+    ctx.evaluations += sum(len(l) for _, l in chk)
+    ctx.count("setLink cases", n)
+    ctx.count("setLink calls compared with the model", sum(1 for _, l in chk for _, o in l if o is not None))
+
+
+def corpus_seeds(stream):
+    """seeds of past defects / repaired false alarms kept in corpus/C03/*.json: they run first on every run"""
+    import glob
+    import json
+
+    out = []
+    for fn in sorted(glob.glob(os.path.join(common.VERIF, "corpus", "C03", "*.json"))):
+        try:
+            d = json.load(open(fn))
+        except Exception:
+            continue
+        if d.get("stream") == stream:
+            out.append(d)
+    return out
 
 
 def run_link_caches(ctx, mats, solids):
     n = ctx.pick(40, 400)
     req, chk = [], []
-    for rep in range(n):
-        seed = ctx.rng.getrandbits(40)
+    fixed_seeds = [d["seed"] for d in corpus_seeds("linkcache")]
+    ctx.count("corpus cases (linkcache)", len(fixed_seeds))
+    for rep in range(n + len(fixed_seeds)):
+        seed = fixed_seeds[rep] if rep < len(fixed_seeds) else ctx.rng.getrandbits(40)
         case = {"linkcache": True, "seed": seed}
         fails = []
         try:
@@ -1939,6 +2224,99 @@ def run_link_caches(ctx, mats, solids):
     ctx.evaluations += sum(len(l) for _, l in chk)
     ctx.count("link-cache cases", n)
     ctx.count("link-cache calls compared with the model", sum(1 for _, l in chk for _, o in l if o is not None))
+
+
+# --------------------------------------------------------------------------- inherited expanding dimensions
+_PASS_THROUGH = {}
+
+
+def pass_through_classes():
+    """user/plugin style subclasses of library shapes with a pass-through (*args, **kwargs) __init__ (their own
+    DIMENSION_NAMES are empty; THERMAL_EXPANSION_DIMS is inherited)"""
+    if not _PASS_THROUGH:
+        from armi.reactor import components
+
+        for base in ("Circle", "Hexagon", "Rectangle", "Helix"):
+            cls = getattr(components, base)
+
+            def __init__(self, *args, _cls=cls, **kwargs):
+                _cls.__init__(self, *args, **kwargs)
+
+            _PASS_THROUGH[base] = type("VerifPassThrough" + base, (cls,), {"__init__": __init__, "__module__": __name__})
+    return _PASS_THROUGH
+
+
+def run_inherited_dims(ctx, mats, solids):
+    """every expanding dimension a class INHERITS must still expand: Square's lengthOuter / lengthInner (Rectangle's
+    names, stored by Square next to its widths), and every dimension of pass-through subclasses of library shapes -
+    read hot, read through a link, hot setDimension read-back, mass per unit height."""
+    from armi.reactor import components
+
+    rng = ctx.rng
+    n = ctx.pick(12, 120)
+    for rep in range(n):
+        mname = rng.choice(solids)
+        info = mats[mname]
+        tin, t0, t1 = gen_temps(rng, info["lo"], info["hi"], 3)
+        which = rng.choice(["Square"] * 3 + list(pass_through_classes()))
+        with common.quiet():
+            m = info["cls"]()
+            if which == "Square":
+                dims = gen_dims(rng, "Square")
+                if not dims["widthInner"]:
+                    dims["widthInner"] = dims["widthOuter"] * 0.5
+                comp = components.Square("c", m, tin, t0, **dims)
+                keys = ["lengthOuter", "lengthInner", "widthOuter", "widthInner"]
+            else:
+                dims = gen_dims(rng, which)
+                comp = pass_through_classes()[which]("c", m, tin, t0, **dims)
+                keys = [k for k in SHAPE_DIMS[which] if k not in ("mult", "nHoles")]
+            holder = components.Circle("holder", "Void", 20.0, 20.0, od=f"c.{keys[0]}", id=0.0, mult=1.0, components={"c": comp})
+            # an EXPANDING SOLID holding a link on one of its own expanding dimensions, hot at T != Tinput: the linked
+            # dimension is the target's current dimension, not multiplied again by the holder's factor
+            hname = rng.choice(solids)
+            th = gen_temps(rng, mats[hname]["lo"], mats[hname]["hi"], 2)
+            solid_holder = components.Circle("sleeve", mats[hname]["cls"](), th[0], th[1], od=64.0, id=f"c.{keys[0]}", mult=1.0,
+                                             components={"c": comp})
+        case = {"inherited": which, "material": mname, "dims": dims, "tin": tin, "t0": t0, "t1": t1}
+        ctx.case(("inherited", which, mname, rep), nontrivial=True)
+        ctx.count(f"inherited expanding dimensions: {which}")
+        nd0 = dict(comp.getNumberDensities())
+        m0 = mass_density(nd0) * float(comp.getArea())
+        for t in (t0, t1):
+            with common.quiet():
+                comp.setTemperature(t)
+                f = (100.0 + float(m.linearExpansionPercent(Tc=t))) / (100.0 + float(m.linearExpansionPercent(Tc=tin)))
+                for k in keys:
+                    cold = float(comp.getDimension(k, cold=True))
+                    hot = float(comp.getDimension(k))
+                    if cold and relerr(hot, cold * f) > TOL:
+                        ctx.fail("dimension-cold-times-factor", f"inherited expanding dimension {k} == cold value x factor",
+                                 dict(case, dim=k, T=t), observed=hot, expected=cold * f)
+                for cold in (False, True):
+                    sv = float(solid_holder.getDimension("id", cold=cold))
+                    if sv != float(comp.getDimension(keys[0], cold=cold)):
+                        ctx.fail("linked-dimension-follows", "a link held by an expanding solid on one of its expanding dimensions "
+                                 "equals the target's current dimension (no second expansion by the holder)",
+                                 dict(case, holder=hname, holderT=th, T=t, cold=cold), observed=sv,
+                                 expected=float(comp.getDimension(keys[0], cold=cold)))
+                via = float(holder.getDimension("od"))
+                if via != float(comp.getDimension(keys[0])):
+                    ctx.fail("linked-dimension-follows", "a link onto an inherited expanding dimension equals the target's current "
+                             "dimension", dict(case, dim=keys[0], T=t), observed=via, expected=float(comp.getDimension(keys[0])))
+                mh = mass_density(dict(comp.getNumberDensities())) * float(comp.getArea())
+            if m0 > 0 and relerr(mh / m0, 1.0) > TOL:
+                ctx.fail("mass-per-height", "mass per unit height is conserved by setTemperature (inherited expanding dimensions)",
+                         dict(case, T=t), observed=mh, expected=m0)
+        with common.quiet():
+            for k in keys:
+                v = float(comp.getDimension(k)) * 1.03125 or 0.375
+                comp.setDimension(k, v, cold=False)
+                got = float(comp.getDimension(k))
+                if relerr(got, v) > TOL:
+                    ctx.fail("hot-dimension-readback", f"setDimension({k}, v, cold=False) reads back v (inherited expanding dimension)",
+                             dict(case, dim=k), observed=got, expected=v)
+    ctx.evaluations += n
 
 
 # --------------------------------------------------------------------------- entry points
@@ -1990,6 +2368,8 @@ def run(ctx):
     run_aliasing(ctx, mats, solids)
     run_histories(ctx, mats, solids)
     run_link_caches(ctx, mats, solids)
+    run_setlinks(ctx, mats, solids)
+    run_inherited_dims(ctx, mats, solids)
     ctx.rule = ("full cross product: every 2-D shape class (11 + unshaped) x every solid material class with an expansion "
                 "correlation x seeded histories (1-8 temperatures inside the validity range, incl. start at the input "
                 "temperature and revisits); every solid class without a correlation and every fluid/Custom class x shapes; "
@@ -2002,7 +2382,10 @@ def run(ctx):
                 "solid/Fluid/Custom, hot setDimension) replayed on the model's state machine with caches and judged through "
                 "the area, getVolume()/height and getMass()/height read paths; pin blocks with link-bounded annuli (and "
                 "gas-bonded pins behind a link to a link), warmed volume caches, solids heated / hot-set / replaced one at a "
-                "time, every component judged through getVolume and getMass. distinct = (shape, material, history "
+                "time, every component judged through getVolume and getMass; setLink histories (numeric annuli turned into "
+                "links at value coincidence and non-coincidence, links moved between components with equal values, onto "
+                "linked dimensions, after resizing the target) with heating / hot sets in between, declared links judged "
+                "after every call. distinct = (shape, material, history "
                 "index) / (config, seed); all non-trivial (real setTemperature/getDimension/getArea calls compared with the "
                 "model and judged by the oracle).")
 
@@ -2121,6 +2504,13 @@ def replay(ctx, payload):
         fails = []
         hist_case(hist_spec(case["seed"], mats, solids, case.get("shape"), case.get("mode"), case.get("swaps")), mats,
                   lambda *a: fails.append(a))
+        hit = [f for f in fails if f[0] == key]
+        return {"observed": hit[0][2], "expected": hit[0][3]} if hit else None
+    if case.get("setlink"):
+        mats = classify_materials(ctx)
+        solids = [n for n, i in mats.items() if i["kind"] == "solid" and i.get("has_nd")]
+        fails = []
+        setlink_case(case["seed"], mats, solids, lambda *a: fails.append(a))
         hit = [f for f in fails if f[0] == key]
         return {"observed": hit[0][2], "expected": hit[0][3]} if hit else None
     if case.get("linkcache"):
